@@ -29,7 +29,9 @@ EXPLANATION = (
     'validator) built by generate_validator_constructor; a child table is chained to its '
     'parent\'s exactly when the caller exists in the parent (for the public table: whenever a '
     'parent exists). Decides the structural part, not byte-level JSON.'
-    " R5/R6 (imported from C04-R2 and C08-R2): the primitive encoders (`_strftime` = strftime with the declared format) and the validators' normalisation (Nullable.validate maps only None to None) decide what text reaches the wire.")
+    " R5/R6 (imported from C04-R2 and C08-R2): the primitive encoders (`_strftime` = strftime with the declared format) and the validators' normalisation (Nullable.validate maps only None to None) decide what text reaches the wire."
+    ' RC (call-condition drift, stonelint.conddrift.run_calls): for every call of a repository or imported-library function in the functions the property is anchored in, the path conditions of its occurrences are compared with reference/conditions.json by truth table; an assignment under which the function used to make the call and now completes without it is a violation (tests on memo tables, emptiness of the iterated collection and earlier refusals excepted; re-spelled conditions are not claimed).'
+    ' MK (memo-key rule, stonelint.memo): a memo table or done-set the reference tree does not have must be keyed by every access path the skipped code reads, injectively and type-aware.')
 ASSUMPTIONS = [
     'reference/wire_format.json is a faithful transcription of docs/json_serializer.rst',
     'json.dumps renders Python dict/list/str/int/float/bool/None as the JSON kinds of the same name',
